@@ -3,6 +3,7 @@ package main
 import (
 	"bytes"
 	"fmt"
+	"strings"
 	"math/big"
 	"sort"
 	"time"
@@ -456,6 +457,8 @@ func (w *World) oraclePunishment(bi *BlockInfo) {
 	w.Stats.OracleEvals["C14"]++
 	params := cur.Locking.Params
 	thr := cur.Locking.Tokens
+	type slashSpec struct{ fraction, why string }
+	slashes := map[string][]slashSpec{}
 	// evidence in this block
 	cp := w.Cmt.Params
 	for _, e := range b.Misbehavior {
@@ -482,9 +485,9 @@ func (w *World) oraclePunishment(bi *BlockInfo) {
 		if cv.Status != lockingtypes.Tombstoned {
 			w.violate("C14", "evidence-not-tombstoned", "not-tombstoned", "height %d: validator %x has unexpired evidence (age %s, %d blocks) but status %s", b.Height, e.Validator.Address[:4], age, ageBlocks, cv.Status)
 		}
-		if pv != nil && pv.Status != lockingtypes.Tombstoned && m.Punished[a] == nil || (m.Punished[a] != nil && m.Punished[a].Kind != "tombstone" && pv != nil && pv.Status != lockingtypes.Tombstoned) {
+		if pv != nil && pv.Status != lockingtypes.Tombstoned {
 			m.Punished[a] = &punishment{Kind: "tombstone", Height: b.Height}
-			w.checkSlash(bi, a, pv, cv, params.SlashFractionDoubleSign.String(), "double-sign")
+			slashes[a] = append(slashes[a], slashSpec{params.SlashFractionDoubleSign.String(), "double-sign"})
 		}
 	}
 	m.windowStep(bi)
@@ -516,7 +519,7 @@ func (w *World) oraclePunishment(bi *BlockInfo) {
 			if want := b.Time.Add(params.DowntimeJailDuration); !cv.JailedUntil.Equal(want) {
 				w.violate("C14", "jail-time", "jail-time", "height %d: validator %x jailed until %s, expected %s", b.Height, []byte(a)[:4], cv.JailedUntil, want)
 			}
-			w.checkSlash(bi, a, pv, cv, params.SlashFractionDowntime.String(), "downtime")
+			slashes[a] = append([]slashSpec{{params.SlashFractionDowntime.String(), "downtime"}}, slashes[a]...)
 			// it must really have missed enough blocks: checked by the window model below
 			if ws := w.M.window(a); ws != nil && !ws.tripped {
 				w.violate("C14", "jailed-without-offence", "no-offence", "height %d: validator %x jailed with %d misses in the window (max %d)", b.Height, []byte(a)[:4], ws.missed, params.MaxMissedPerWindow)
@@ -534,6 +537,13 @@ func (w *World) oraclePunishment(bi *BlockInfo) {
 				}
 			}
 		}
+		if pv.Status == lockingtypes.Active && cv.Status == lockingtypes.Tombstoned {
+			// jailed for downtime and tombstoned in the same block: the downtime slash came first
+			if ws := w.M.window(a); ws != nil && ws.tripped {
+				slashes[a] = append([]slashSpec{{params.SlashFractionDowntime.String(), "downtime"}}, slashes[a]...)
+				w.probe("jailed-and-tombstoned-same-block")
+			}
+		}
 		if cv.Status == lockingtypes.Downgrade || cv.Status == lockingtypes.Inactive {
 			if cv.Power != 0 {
 				w.violate("C14", "punished-with-power", "status-power", "height %d: validator %x has status %s and power %d", b.Height, []byte(a)[:4], cv.Status, cv.Power)
@@ -543,18 +553,26 @@ func (w *World) oraclePunishment(bi *BlockInfo) {
 			}
 		}
 	}
+	for a, list := range slashes {
+		var fr, why []string
+		for _, sl := range list {
+			fr = append(fr, sl.fraction)
+			why = append(why, sl.why)
+		}
+		var pv *lockingtypes.Validator
+		if prev != nil {
+			pv = prev.Vals[a]
+		}
+		w.checkSlash(bi, a, pv, cur.Vals[a], fr, strings.Join(why, "+"))
+	}
 }
 
 // checkSlash: slashed totals grow by exactly floor(holding*fraction) (everything if that is zero), once.
-func (w *World) checkSlash(bi *BlockInfo, a string, pv, cv *lockingtypes.Validator, fraction, why string) {
-	if pv == nil {
+func (w *World) checkSlash(bi *BlockInfo, a string, pv, cv *lockingtypes.Validator, fractions []string, why string) {
+	if pv == nil || cv == nil {
 		return
 	}
 	b := bi.B
-	frac, ok := new(big.Rat).SetString(fraction)
-	if !ok {
-		return
-	}
 	// the validator's holdings after the slash, before this block's own lock/unlock requests
 	locks := map[string]*big.Int{}
 	unlocked := false
@@ -574,19 +592,26 @@ func (w *World) checkSlash(bi *BlockInfo, a string, pv, cv *lockingtypes.Validat
 		return // holdings moved further in the same block; conservation (C11) still covers it
 	}
 	for _, c := range pv.Locking {
-		hold := c.Amount.BigInt()
-		cut := new(big.Int).Mul(hold, frac.Num())
-		cut.Div(cut, frac.Denom())
-		if cut.Sign() == 0 {
-			cut.Set(hold)
+		hold := new(big.Int).Set(c.Amount.BigInt())
+		for _, fraction := range fractions {
+			frac, ok := new(big.Rat).SetString(fraction)
+			if !ok {
+				return
+			}
+			cut := new(big.Int).Mul(hold, frac.Num())
+			cut.Div(cut, frac.Denom())
+			if cut.Sign() == 0 {
+				cut.Set(hold)
+			}
+			hold.Sub(hold, cut)
 		}
-		want := new(big.Int).Sub(hold, cut)
+		want := hold
 		if l := locks[c.Denom]; l != nil {
-			want.Add(want, l)
+			want = new(big.Int).Add(want, l)
 		}
 		got := cv.Locking.AmountOf(c.Denom).BigInt()
 		if got.Cmp(want) != 0 {
-			w.violate("C14", "slash-amount", "slash-"+why, "height %d: validator %x held %s %s, %s slash of %s should leave %s, has %s", b.Height, []byte(a)[:4], hold, c.Denom, why, fraction, want, got)
+			w.violate("C14", "slash-amount", "slash-"+why, "height %d: validator %x held %s %s, %s slash of %v should leave %s, has %s", b.Height, []byte(a)[:4], c.Amount, c.Denom, why, fractions, want, got)
 		}
 	}
 }
